@@ -223,4 +223,86 @@ func srcCrypt(f *facts, o *out) {
 			f.status["marshal_quote_words"] = "unrecognised"
 		}
 	}
+	// ---- syntax/encoding/yaml.go MarshalYAML, the guard of fix 9b9d633 for strings yaml.v3 cannot write as block scalars:
+	//        if yamlNode.Style&(yaml.SingleQuotedStyle|yaml.DoubleQuotedStyle) == 0 && strings.Contains(value, "<lit>") {
+	//            for _, prefix := range []string{<lits>} { if strings.HasPrefix(value, prefix) { yamlNode.Style = ...DoubleQuotedStyle } }
+	//        }
+	//      Recognised: an if statement whose condition mentions both quoted styles and strings.Contains(value, lit) and
+	//      whose body ranges over a []string literal testing strings.HasPrefix and assigning a style with DoubleQuotedStyle.
+	//      Not recognised (guard removed or reshaped): the empty prefix list, i.e. a model WITHOUT the guard, and the
+	//      side condition C12_src_block_guard_ok breaks.
+	{
+		var prefixes []string
+		contains := ""
+		ok := false
+		mentions := func(n ast.Node, name string) bool {
+			found := false
+			ast.Inspect(n, func(x ast.Node) bool {
+				if sel, isSel := x.(*ast.SelectorExpr); isSel && sel.Sel.Name == name {
+					found = true
+				}
+				return !found
+			})
+			return found
+		}
+		if fd := f.funcDecl("syntax/encoding/yaml.go", "MarshalYAML"); fd != nil {
+			ast.Inspect(fd.Body, func(n ast.Node) bool {
+				ifs, isIf := n.(*ast.IfStmt)
+				if !isIf || ok {
+					return true
+				}
+				if !mentions(ifs.Cond, "SingleQuotedStyle") || !mentions(ifs.Cond, "DoubleQuotedStyle") {
+					return true
+				}
+				lit, okC := "", false
+				ast.Inspect(ifs.Cond, func(x ast.Node) bool {
+					call, isCall := x.(*ast.CallExpr)
+					if !isCall || len(call.Args) != 2 {
+						return true
+					}
+					if sel, isSel := call.Fun.(*ast.SelectorExpr); isSel && sel.Sel.Name == "Contains" {
+						if id, isId := call.Args[0].(*ast.Ident); isId && id.Name == "value" {
+							if s, isLit := cyStrLit(call.Args[1]); isLit {
+								lit, okC = s, true
+							}
+						}
+					}
+					return true
+				})
+				if !okC {
+					return true
+				}
+				for _, st := range ifs.Body.List {
+					rs, isRange := st.(*ast.RangeStmt)
+					if !isRange {
+						continue
+					}
+					cl, isCL := rs.X.(*ast.CompositeLit)
+					if !isCL || !mentions(rs.Body, "HasPrefix") || !mentions(rs.Body, "DoubleQuotedStyle") {
+						continue
+					}
+					var ws []string
+					all := len(cl.Elts) > 0
+					for _, e := range cl.Elts {
+						s, isLit := cyStrLit(e)
+						all = all && isLit
+						ws = append(ws, s)
+					}
+					if all {
+						prefixes, contains, ok = ws, lit, true
+					}
+				}
+				return true
+			})
+		}
+		if ok {
+			o.add("Definition marshal_block_prefixes : list string := %s.", cyCoqStrList(prefixes))
+			o.add("Definition marshal_block_contains : string := %s.", coqString(contains))
+			f.status["marshal_block_prefixes"] = "ok"
+		} else {
+			o.add("Definition marshal_block_prefixes : list string := []. (* guard not recognised: modelled as absent *)")
+			o.add("Definition marshal_block_contains : string := %s.", coqString("\n"))
+			f.status["marshal_block_prefixes"] = "unrecognised"
+		}
+	}
 }
